@@ -9,6 +9,11 @@ import Driver.OpsClap
 import Driver.OpsScope
 import Driver.OpsRenamePlan
 import Driver.OpsUndo
+import Driver.OpsExec
+import Driver.OpsScan
+import Driver.OpsSignals
+import Driver.OpsLine
+import Driver.OpsMatch
 import Driver.OpsLock
 /-
   rmodel: the executable side of the Lean model.  One request per line on stdin, one canonical
@@ -28,6 +33,11 @@ def handlers : List (List String → Option String) :=
   , OpsScope.dispatch
   , OpsRenamePlan.dispatch
   , OpsUndo.dispatch
+  , OpsExec.dispatch
+  , OpsScan.dispatch
+  , OpsSignals.dispatch
+  , OpsLine.dispatch
+  , OpsMatch.dispatch
   , OpsLock.dispatch
   ]
 
